@@ -3,7 +3,7 @@
 import numpy as np
 from hypothesis import strategies as st
 
-from harness import gen, build, sysbuild
+from harness import gen, build, sysbuild, rodbuild
 from harness.numdiff import jacobian, directional, compare
 from harness.runner import Result
 
@@ -23,6 +23,8 @@ ASSUMPTIONS = [
     "rod cross-sections: the time-derivative clauses are asserted at nodal xi only (Petrov-Galerkin rods interpolate "
     "velocities independently of poses, so v_P = d/dt r_OP holds at nodes only, as C11 states); partial-derivative "
     "clauses are asserted at every xi",
+    "R12 rod cross-sections are used at nodal xi only: between nodes the R12 orientation is not a rotation by design, "
+    "so 'satisfied at definition' cannot hold exactly for a joint frame placed there",
     "a PointMass has no extent: a Spherical joint on a point mass is placed at the point mass (r_OJ0 = its position); "
     "FixedDistance between coincident points is rejected by the code (ValueError) and not counted",
     "the system is assembled without the consistency solve (velocities of moving frames need not match the bodies'), "
@@ -41,9 +43,19 @@ JOINTS = ["Spherical", "RigidConnection", "Revolute", "Prismatic", "Cylindrical"
 
 
 @st.composite
-def _subsystem(draw, allow_point):
+def _subsystem(draw, allow_point, allow_rod=True):
     kinds = ["rigid", "rigid", "rigid", "frame_fixed", "frame_moving"] + (["point"] if allow_point else [])
+    if allow_rod:
+        kinds += ["rod", "rod"]
     k = draw(st.sampled_from(kinds))
+    if k == "rod":
+        rs = draw(rodbuild.rod_spec(max_nel=2, allow_constraints=False))
+        n = rodbuild.nnodes(rs)
+        # R12 interpolates directors linearly: away from the nodes A_IB is not a rotation (C11 claims the rotation
+        # property for Quaternion and SE3 only), so a joint frame cannot be attached exactly there
+        nodal = True if rs["interp"] == "R12" else draw(st.booleans())
+        xi = draw(st.integers(0, n - 1)) / (n - 1) if nodal else draw(gen.f(0.02, 0.98))
+        return {"kind": "rod", "rod": rs, "xi": float(xi), "nodal": nodal}
     if k == "rigid":
         return draw(build.rigid_body())
     if k == "point":
@@ -58,7 +70,7 @@ def _case(draw):
     jt = draw(st.sampled_from(JOINTS))
     allow_point = jt in ("Spherical", "FixedDistance")
     b1 = draw(_subsystem(allow_point))
-    b2 = draw(_subsystem(allow_point))
+    b2 = draw(_subsystem(allow_point, allow_rod=b1["kind"] != "rod"))
     if b1["kind"] == "frame" and b2["kind"] == "frame":
         b2 = draw(build.rigid_body())
     js = {"type": jt}
@@ -80,6 +92,10 @@ def _case(draw):
             js["r_OJ0"] = list(pts[0]["r"])
             for b in pts[1:]:
                 b["r"] = list(pts[0]["r"])
+    if b1["kind"] == "rod":
+        js["xi1"] = b1["xi"]
+    if b2["kind"] == "rod":
+        js["xi2"] = b2["xi"]
     return {
         "t0": draw(gen.f(0.0, 1.0)),
         "bodies": [b1, b2],
@@ -99,8 +115,9 @@ def strategy(tier):
 
 def build_case(spec):
     system = sysbuild.new_system(spec["t0"])
-    s1 = build.make_body(spec["bodies"][0], name="s1")
-    s2 = build.make_body(spec["bodies"][1], name="s2")
+    mk = lambda b, name: rodbuild.make_rod(b["rod"], name=name)[0] if b["kind"] == "rod" else build.make_body(b, name=name)
+    s1 = mk(spec["bodies"][0], "s1")
+    s2 = mk(spec["bodies"][1], "s2")
     joint = sysbuild.make_joint(spec["joint"], s1, s2)
     system.add(s1, s2, joint)
     sysbuild.assemble(system)
@@ -112,6 +129,11 @@ def hierarchy(res, system, t, q, u, ud, la, site, feats, time_clauses=True, pref
     D = sysbuild.dense
     qd = system.q_dot(t, q, u)
     hq = build.fd_steps(q, sysbuild.quat_slices(system))
+    for c in system.contributions:
+        if hasattr(c, "nodalDOF_p"):  # rod: per-node quaternion steps
+            for nd in c.nodalDOF_p:
+                idx = c.qDOF[nd]
+                hq[idx] = 1e-3 * max(float(np.linalg.norm(q[idx])), 1e-12)
     hu = build.fd_steps(u)
 
     def cmp(sub, analytic, num, dis):
@@ -146,8 +168,14 @@ def check(spec):
             res.label("degenerate_fixed_distance_rejected")
             return res
         raise
-    k1, k2 = (b["kind"] if b["kind"] != "frame" else ("frame_moving" if "c1" in b["motion"] else "frame_fixed")
-              for b in spec["bodies"])
+    def kname(b):
+        if b["kind"] == "frame":
+            return "frame_moving" if "c1" in b["motion"] else "frame_fixed"
+        if b["kind"] == "rod":
+            return "rod[" + b["rod"]["interp"] + ("" if b["nodal"] else ",interior") + "]"
+        return b["kind"]
+
+    k1, k2 = (kname(b) for b in spec["bodies"])
     site = f"{jt}x({k1},{k2})"
     feats = {"joint": jt, "s1": k1, "s2": k2}
     t0 = system.t0
@@ -161,14 +189,18 @@ def check(spec):
         t, q = t0, system.q0.copy()
     else:
         t = float(spec["t"])
-        q = system.q0 + np.array(spec["dq"][:nq], dtype=float)
-    u = np.array(spec["u"][:nu], dtype=float)
-    ud = np.array(spec["u_dot"][:nu], dtype=float)
+        q = system.q0 + np.array((spec["dq"] * (nq // 14 + 1))[:nq], dtype=float) * (0.4 if any(
+            b["kind"] == "rod" for b in spec["bodies"]) else 1.0)
+    u = np.array((spec["u"] * (nu // 12 + 1))[:nu], dtype=float)
+    ud = np.array((spec["u_dot"] * (nu // 12 + 1))[:nu], dtype=float)
     la = np.array(spec["la"][: system.nla_g], dtype=float)
-    hierarchy(res, system, t, q, u, ud, la, site, feats)
+    # Petrov-Galerkin rods: velocities are interpolated independently of poses, the time-derivative clauses hold
+    # at nodal cross-sections only (see ASSUMPTIONS)
+    interior_rod = any(b["kind"] == "rod" and not b["nodal"] for b in spec["bodies"])
+    hierarchy(res, system, t, q, u, ud, la, site, feats, time_clauses=not interior_rod)
     gabs = float(np.max(np.abs(system.g(t, q))))
     moving = any(k == "frame_moving" for k in (k1, k2))
-    both = all(k in ("rigid", "point") for k in (k1, k2))
+    both = all(k in ("rigid", "point") or k.startswith("rod") for k in (k1, k2))
     res.nontrivial = (both or moving) and gabs > 1e-3
     res.label(f"joint:{jt}", f"pair:{k1}+{k2}", "off_manifold" if gabs > 1e-3 else "on_manifold")
     return res
